@@ -127,7 +127,7 @@ pub fn run_cases(rep: &Report, opts: &RuleOpts, cases: &[RuleCase]) {
                 let n = case.history.min(prepared.len());
                 let exp: Option<Vec<DSol>> = (0..n).map(|gi| fresh.get(&(gi, cfg.is_slg())).cloned()).collect();
                 let Some(exp) = exp else { continue };
-                let hg: Vec<super::c10::HistGoal> = prepared[..n].iter().map(|(_, t, p, _)| super::c10::HistGoal { text: t, peeled: p }).collect();
+                let hg: Vec<super::c10::HistGoal> = prepared[..n].iter().map(|(_, t, p, _)| super::c10::HistGoal { text: t, peeled: p, tag: "" }).collect();
                 super::c10::explore(rep, opts.property, &mut local, &chalk, &case.program, &hg, &exp, cfg, &case.class);
             }
         }
